@@ -498,7 +498,7 @@ class GraphPlugin:
         if name == 'add_edge':
             return (LibFn('G.add_edge', lambda it_, ca: self.add_edge(it_, g, ca)),)
         if name == 'copy':
-            return (LibFn('G.copy', lambda it_, ca: self.copy(it_, g)),)
+            return (LibFn('G.copy', lambda it_, ca: self.copy(it_, g, ca)),)
         if name == '__contains__':
             def contains(it_, ca):
                 used(it_, NX_AX + '`n in G` is membership among the visible nodes')
@@ -557,10 +557,28 @@ class GraphPlugin:
             st.setf(g, f, st.getf(g, f).store(PyV.tup2(u, v), lift(val, st)))
         st.emit('add_edge', g=g, u=ca.args[0], v=ca.args[1], attrs=dict(ca.kwargs))
 
-    def copy(self, it, g):
+    def copy(self, it, g, ca=None):
         st = it.st
         if st.getf(g, 'g_kind') != 'base':
             raise Unsupported('copy of a view')
+        as_view = False
+        if ca is not None:
+            as_view = ca.kwargs.get('as_view', ca.args[0] if ca.args else False)
+        if as_view is not False:
+            if as_view is not True:
+                raise Unsupported('G.copy(as_view=<symbolic>)')
+            # a networkx view is read-only as to structure, but its node / edge attribute dicts ARE the original's
+            used(it, NX_AX + 'G.copy(as_view=True) is a view: same nodes, edges and attribute dictionaries as G (writes to node / edge '
+                             'attributes through it land in G)')
+            new = it.instantiate(ClsRef(GRAPH_CLS, it.repo.klass('ml_pipeline_engine/dag/graph.py', 'DiGraph')), CallArgs())
+            for f, val in list(st.heap[g.id].items()):
+                if f.startswith(('g_', 'na:', 'ea:')):
+                    st.setf(new, f, val)
+                    if f.startswith(('g_nodes', 'g_edges', 'na:', 'ea:')):
+                        st.share_field(new, g, f)
+            st.setf(new, 'name', st.getf(g, 'name') if st.hasf(g, 'name') else '')
+            st.emit('graph_view', src=g, new=new)
+            return new
         used(it, NX_AX + 'G.copy() is a fresh graph of type(G) with equal nodes/edges and fresh copies of the '
                          'attribute dicts')
         new = it.instantiate(ClsRef(GRAPH_CLS, it.repo.klass('ml_pipeline_engine/dag/graph.py', 'DiGraph')), CallArgs())
